@@ -4,15 +4,19 @@
 (* {Read, RawRecord} up to MaxCalls is explored for every script up to MaxLen. *)
 EXTENDS Transform, Json, FiniteSets
 
-CONSTANTS MaxLen, MaxCalls, EmitCases
+CONSTANTS MaxLen, MaxCalls, EmitCases,
+          FaultClass      \* "none": no I/O fault symbol; "fatal" / "cont": how the format reader classifies a failing io.Reader (C16)
 
-VARIABLES script0, script, hist
-vars == <<tvars, script0, script, hist>>
+VARIABLES script0, script, hist, faulted, afterFault
+vars == <<tvars, script0, script, hist, faulted, afterFault>>
 
 Sym == {[k |-> "ok", v |-> 1, junk |-> FALSE], [k |-> "ok", v |-> 2, junk |-> FALSE],
         [k |-> "cont", v |-> 1, junk |-> FALSE], [k |-> "cont", v |-> 2, junk |-> TRUE],
         [k |-> "fatal", v |-> 1, junk |-> FALSE], [k |-> "fatal", v |-> 2, junk |-> TRUE],
         [k |-> "eof", v |-> 0, junk |-> FALSE]}
+       \cup (IF FaultClass = "none" THEN {} ELSE {[k |-> "iofail", v |-> 9, junk |-> FALSE]})
+\* once the input reader has failed it keeps failing: every later ingester call yields the same class of error
+FaultRes == [k |-> FaultClass, v |-> 9, junk |-> FALSE]
 
 Scripts == UNION {[1..n -> Sym] : n \in 0..MaxLen}
 
@@ -22,13 +26,18 @@ Init == /\ TInit
         /\ script0 \in Scripts
         /\ script = script0
         /\ hist = <<>>
+        /\ faulted = FALSE /\ afterFault = 0
 
-NextRes == IF script = <<>> THEN EofRes ELSE Head(script)
+NextRes == IF faulted THEN FaultRes
+           ELSE IF script = <<>> THEN EofRes
+           ELSE IF Head(script).k = "iofail" THEN FaultRes ELSE Head(script)
 
 DoRead ==
   /\ Len(hist) < MaxCalls
-  /\ \/ ReadLatched /\ UNCHANGED script
-     \/ ReadThrough(NextRes) /\ script' = (IF script = <<>> THEN script ELSE Tail(script))
+  /\ \/ ReadLatched /\ UNCHANGED <<script, faulted, afterFault>>
+     \/ /\ ReadThrough(NextRes) /\ script' = (IF script = <<>> \/ faulted THEN script ELSE Tail(script))
+        /\ faulted' = (faulted \/ (script # <<>> /\ Head(script).k = "iofail"))
+        /\ afterFault' = IF faulted THEN afterFault + 1 ELSE afterFault
   /\ hist' = Append(hist, [op |-> "Read", class |-> reply'.class, v |-> reply'.v, nilb |-> reply'.nilb, ing |-> ingCalls'])
   /\ UNCHANGED script0
 
@@ -36,7 +45,7 @@ DoRaw ==
   /\ Len(hist) < MaxCalls
   /\ RawRecord
   /\ hist' = Append(hist, [op |-> "Raw", class |-> reply'.class, v |-> reply'.v, nilb |-> reply'.nilb, ing |-> ingCalls'])
-  /\ UNCHANGED <<script0, script>>
+  /\ UNCHANGED <<script0, script, faulted, afterFault>>
 
 Next == DoRead \/ DoRaw
 
@@ -48,5 +57,8 @@ Emit == (EmitCases /\ Len(hist) = MaxCalls) =>
 
 \* progress: an un-latched Read consumes one ingester result; a finite script is
 \* exhausted after Len(script0)+1 ingester calls at most.
-BoundedIngesterCalls == ingCalls <= Len(script0) + 1
+BoundedIngesterCalls == FaultClass # "cont" => ingCalls <= Len(script0) + 1
+\* C16 at design level: after the reader has failed, no further ingester call is made (the failure was terminal) --
+\* which holds exactly when the format reader classifies it as non-continuable
+FaultIsTerminal == afterFault = 0
 =============================================================================
